@@ -942,7 +942,7 @@ static void ranksOracle(Ctx& c, const Cfg& cfg, const Out& A, int nvar, int nbsi
 // _krigsim): S(x) - K(x) is the kriging error of the non conditional field, whose variance under the model is the kriging
 // variance sK2(x). Near a datum sK(x) is tiny, so a conditioning that mixes simulation ranks, forgets a datum or uses other
 // weights is off by O(sqrt(sill)) >> sK(x). The reference kriging (simple or ordinary cokriging, unique neighbourhood) is
-// solved here in long double from pointwise Model::eval. Bound: F * sK(x) + 1e-6 * scale with F = 50: the turning-bands
+// solved here in long double from pointwise Model::eval. Bound: F * sK(x) + 1e-4 * scale with F = 50: the turning-bands
 // field is only approximately Gaussian / of the model covariance (finite number of bands), a factor 50 on the standard
 // deviation (2500 on the variance) absorbs that; evaluated for nbtuba >= 10 only.
 static void krigResidual(Ctx& c, const Cfg& cfg, const Out& A, const std::string& tk, const std::vector<char>& freeS)
@@ -1006,7 +1006,7 @@ static void krigResidual(Ctx& c, const Cfg& cfg, const Out& A, const std::string
       for (int p = 0; p < n; p++) k += sol[p] * (cfg.dvals[uv[p] * nd + ui[p]] - (nc ? 0. : cfg.model.means[uv[p]]));
       for (int p = 0; p < M; p++) s2 -= sol[p] * rhs[p];
       double sk  = std::sqrt(std::max((double)s2, 0.));
-      double tol = 50 * sk + 1e-6 * scale;
+      double tol = 50 * sk + 1e-4 * scale;
       minsk      = std::min(minsk, sk);
       for (int is = 0; is < nbs; is++)
       {
@@ -1017,9 +1017,12 @@ static void krigResidual(Ctx& c, const Cfg& cfg, const Out& A, const std::string
     }
     for (int is = 0; is < nbs; is++)
     {
-      if (worstS[is] < 0) { c.check("krig-residual", K(cfg, "cond-vs-kriging" + tk), true, 0, 1, ""); continue; }
-      c.check("krig-residual", K(cfg, "cond-vs-kriging" + tk), worstR[is] <= 1, worstE[is], worstT[is],
-              worstR[is] <= 1 ? "" : fmt("variable %d simulation %d target %d: |S - K| = %g, bound 50 sK + 1e-6 scale = %g", iv + 1, is + 1,
+      // (two variables: the non conditional turning-bands fields do not have the cross-covariance of the model - finding of C14 -
+      //  so the kriging error of the simulated field is not the model's kriging error: kept under its own key)
+      std::string kk = K(cfg, "cond-vs-kriging" + tk + (nvar > 1 ? ":nvar=2" : ":nvar=1"));
+      if (worstS[is] < 0) { c.check("krig-residual", kk, true, 0, 1, ""); continue; }
+      c.check("krig-residual", kk, worstR[is] <= 1, worstE[is], worstT[is],
+              worstR[is] <= 1 ? "" : fmt("variable %d simulation %d target %d: |S - K| = %g, bound 50 sK + 1e-4 scale = %g", iv + 1, is + 1,
                                          worstS[is], worstE[is], worstT[is]));
     }
     if (minsk < 0.05 * std::sqrt(cfg.model.totalSill(iv))) c.probe("krig-residual-sharp");
@@ -1058,7 +1061,7 @@ static void caseTub(Rng& r, Ctx& c, const Cfg& cfg)
     for (int iv = 0; iv < nvar; iv++)
     {
       double scale = std::fabs(cfg.model.means[iv]) + 4 * std::sqrt(cfg.model.totalSill(iv)) + 1;
-      double tol   = 1e-7 * scale;
+      double tol   = 1e-5 * scale; // exact kriging with condition numbers up to ~1e8 (smooth structures); a copy gives 0
       for (int i = 0; i < cfg.ndat; i++)
       {
         int t    = cfg.datTarget[i];
@@ -1149,6 +1152,37 @@ static void caseGibbs(Rng& r, Ctx& c, const Cfg& cfg)
     return w;
   };
   const double tol = 1e-10;
+  // ill-conditioned systems are excluded (and counted): the sampler works with the inverse of the data covariance matrix;
+  // beyond a condition number of 1e8 (smooth structures, many points, strongly correlated variables; Model::stabilize only
+  // adds its nugget to monovariate pure-gaussian models) conditional variances 1/Cinv(i,i) come out negative or huge and
+  // the output is NaN or O(100). Reproducibility is still monitored on those cases.
+  bool illcond = false;
+  {
+    defineDefaultSpace(ESpaceType::RN, cfg.ndim);
+    ModelSpec ms = cfg.model;
+    bool pureGauss = true;
+    for (auto& cv : ms.covs) if (cv.type != "GAUSSIAN") pureGauss = false;
+    auto model = buildModel(ms);
+    auto data  = buildData(cfg, nullptr, {}, {}, {});
+    std::vector<SpacePoint> P;
+    for (int i = 0; i < n; i++)
+    {
+      VectorDouble x(cfg.ndim);
+      for (int d = 0; d < cfg.ndim; d++) x[d] = data->getCoordinate(i, d);
+      P.emplace_back(x);
+    }
+    int M = nvar * n;
+    ref::Mat Cm(M, M);
+    double nug = (nvar == 1 && pureGauss && cfg.percent > 0) ? cfg.percent / 100. : 0.; // Model::stabilize
+    for (int iv = 0; iv < nvar; iv++)
+      for (int jv = 0; jv < nvar; jv++)
+        for (int i = 0; i < n; i++)
+          for (int j = 0; j < n; j++)
+            Cm(iv * n + i, jv * n + j) = model->eval(P[i], P[j], iv, jv) * (1. - nug) + ((i == j && iv == jv) ? nug * model->eval(P[i], P[i], iv, iv) : 0.);
+    ref::LU lu(Cm);
+    illcond = !lu.ok || lu.cond() > 1e8;
+  }
+  if (illcond) c.skip("gibbs:bounds:illcond");
   auto btype = [&](int iv, int i) -> std::string {
     if (i < 0) return "none";
     double lo = cfg.L[iv * n + i], up = cfg.U[iv * n + i];
@@ -1158,7 +1192,7 @@ static void caseGibbs(Rng& r, Ctx& c, const Cfg& cfg)
     return lo == up ? "equality" : "two-sided";
   };
   // (a) by documented name: NamingConvention names the columns <prefix>.<variable>.<simulation> (variable-major)
-  for (int iv = 0; iv < nvar; iv++)
+  for (int iv = 0; iv < nvar && !illcond; iv++)
     for (int is = 0; is < nbs; is++)
     {
       std::string nm = "Gibbs";
@@ -1173,30 +1207,30 @@ static void caseGibbs(Rng& r, Ctx& c, const Cfg& cfg)
               e <= tol ? "" : fmt("column %s sample %d value %.17g outside [%g,%g] of variable %d", nm.c_str(), ws, A.cols[col][ws],
                                   cfg.L[iv * n + ws], cfg.U[iv * n + ws], iv + 1));
     }
-  // (b) whatever the layout: every column honours the bounds of one of the variables, each variable nbsimu times
+  // (b) whatever the layout: under the variable-major layout of the names or under the simulation-major layout
+  //     (column = ivar + nvar * isimu), every column honours the bounds of its variable
+  if (!illcond)
   {
-    std::vector<int> cnt(nvar, 0);
-    double worst = 0;
-    int wc = -1, wsam = -1, wvar = 0;
-    for (int col = 0; col < nvar * nbs; col++)
+    double bestW = INFINITY;
+    int bc = -1, bsam = -1, bvar = 0, blay = 0;
+    for (int lay = 0; lay < (nvar > 1 && nbs > 1 ? 2 : 1); lay++)
     {
-      double best = INFINITY;
-      int bi = -1, bs = -1;
+      double w = 0;
+      int wc = -1, wsam = -1, wvar = 0;
       for (int iv = 0; iv < nvar; iv++)
-      {
-        int ws;
-        double e = viol(col, iv, ws);
-        if (e < best) { best = e; bi = iv; bs = ws; }
-      }
-      if (bi >= 0) cnt[bi]++;
-      if (best > worst) { worst = best; wc = col; wsam = bs; wvar = bi; }
+        for (int is = 0; is < nbs; is++)
+        {
+          int col = lay == 0 ? is + nbs * iv : iv + nvar * is, ws;
+          double e = viol(col, iv, ws);
+          if (e > w) { w = e; wc = col; wsam = ws; wvar = iv; }
+        }
+      if (w < bestW) { bestW = w; bc = wc; bsam = wsam; bvar = wvar; blay = lay; }
     }
     std::string det;
-    if (worst > tol && wc >= 0 && wsam >= 0)
-      det = fmt("column %s sample %d value %.17g fits no variable's bounds (best: variable %d [%g,%g])", A.names[wc].c_str(), wsam,
-                A.cols[wc][wsam], wvar + 1, cfg.L[wvar * n + wsam], cfg.U[wvar * n + wsam]);
-    c.check("bounds", K(cfg, std::string("bounds:any-layout:") + btype(wvar, worst > tol ? wsam : -1)),
-            worst <= tol, worst, tol, det);
+    if (bestW > tol && bc >= 0 && bsam >= 0)
+      det = fmt("%s layout: column %s sample %d value %.17g outside [%g,%g] of variable %d", blay == 0 ? "variable-major" : "simulation-major",
+                A.names[bc].c_str(), bsam, A.cols[bc][bsam], cfg.L[bvar * n + bsam], cfg.U[bvar * n + bsam], bvar + 1);
+    c.check("bounds", K(cfg, std::string("bounds:any-layout:") + btype(bvar, bestW > tol ? bsam : -1)), bestW <= tol, bestW, tol, det);
   }
   // equalities are reproduced exactly (AGibbs::_isConstraintTight: "data is a hard data")
   // free samples = not an equality in any variable
